@@ -346,14 +346,15 @@ func (m *canaryReleaseManager) doCanaryJump(c *RolloutContext) (jumped bool) {
 // cleanup after rollout is completed or finished
 func (m *canaryReleaseManager) doCanaryFinalising(c *RolloutContext) (bool, error) {
 	canaryStatus := c.NewStatus.CanaryStatus
-	// when CanaryStatus is nil, which means canary action hasn't started yet, don't need doing cleanup
-	if canaryStatus == nil {
-		return true, nil
-	}
-	// rollout progressing complete, remove rollout progressing annotation in workload
+	// rollout progressing complete, remove rollout progressing annotation in workload; the webhook may have put it
+	// there although no canary action has started yet (a release that is only being initialised)
 	err := removeRolloutProgressingAnnotation(m.Client, c)
 	if err != nil {
 		return false, err
+	}
+	// when CanaryStatus is nil, which means canary action hasn't started yet, don't need doing further cleanup
+	if canaryStatus == nil {
+		return true, nil
 	}
 	tr := newTrafficRoutingContext(c)
 	// execute steps based on the predefined order for each reason
